@@ -3,15 +3,25 @@
 Geometry (matches spec/RunGrid.tla): D periodic directions (1 or 2) with N K-points each, refinement mesh NDIV, integer
 coordinates modulo U = 2*N*NDIV**LMAX, integer weights in units of 1/WTOT.  The per-K "result" is a one-hot vector
 (slot = function of the K-point cell), so the data of the running integral is the coefficient vector.
+
+Failure classes (kept apart, see World.run / World.sink):
+ * the package raises                      -> World.errors (the check reports  raises:<module.function>:<Type>)
+ * a projected value is not on the lattice -> World.problems (NonIntegral; the check reports  projection:nonintegral)
+ * a private name the projection reads is gone (renamed attribute, hook field, keyword of run())
+                                           -> World.private_gone (the check degrades: skipped_private)
+ * anything else going wrong in harness code -> MachineryError
 """
 import os
+import re
 import sys
 import glob as _glob
 import types
 import pickle
+import random
+import traceback
 import numpy as np
 
-from .common import quiet
+from .common import quiet, MachineryError
 
 os.environ.setdefault("WANNIERBERRI_VERIF_TRACE", "1")
 
@@ -19,6 +29,11 @@ import wannierberri as wb  # noqa: E402
 from wannierberri import run_grid as RG  # noqa: E402
 from wannierberri.result import EnergyResult  # noqa: E402
 from wannierberri.symmetry.point_symmetry import transform_ident  # noqa: E402
+
+try:  # ray ships closures with cloudpickle; the double does the same when it is there
+    import cloudpickle as _cp
+except Exception:  # pragma: no cover
+    _cp = pickle
 
 GROUPS = {
     "none": dict(gens=[], mats=[(1, 0, 0, 1)]),
@@ -33,6 +48,16 @@ GROUPS = {
     "h3m": dict(gens=["C3z", "Mx"], hex=True, mats=[]),
 }
 GROUP_TLA = {"none": "GNone", "inv": "GInv1", "c4": "GC4", "mx": "GMx", "c4v": "GC4v", "h3": "GH3", "h6": "GH6", "h3m": "GH3m"}
+
+FACTOR_FILE = re.compile(r"factors_iter-(\d+)\.npy$")
+
+
+class NonIntegral(Exception):
+    """a K coordinate / weight / coefficient of the implementation is not on the integer lattice of the geometry"""
+
+
+class PrivateGone(Exception):
+    """a private attribute / hook field / keyword that the projection relies on does not exist any more"""
 
 
 class Geometry:
@@ -64,8 +89,8 @@ class Geometry:
         return tuple(c)
 
     def slot(self, cell, lev):
-        if lev > self.LMAX + 1:
-            raise NonIntegral(f"refinement level {lev} beyond LMAX={self.LMAX}")
+        if lev > self.LMAX + 1 or lev < 0:
+            raise NonIntegral(f"refinement level {lev} outside 0..LMAX+1={self.LMAX + 1}")
         if self.registry is not None:
             s = self.registry.setdefault((tuple(cell), lev), len(self.registry))
             if s >= self.nslots:
@@ -80,10 +105,6 @@ class Geometry:
         if abs(x - xi) > 1e-7:
             raise NonIntegral(f"weight {f} is not a multiple of 1/{self.WTOT}")
         return xi
-
-
-class NonIntegral(Exception):
-    pass
 
 
 def make_system(geo):
@@ -106,6 +127,34 @@ class FakeDataK:
         self.system = system
 
 
+class Priority:
+    """magnitude of the one-hot result of the K-point (cell, level): decides which points run() refines.
+    mode 'table': `table[(cell, lev)]` (default 1), 'random': log-uniform in 1..1e6, 'deep': grows with the level.
+    Every value is multiplied by 1 + 1e-3*u with u pseudo-random in (cell, lev, salt), so that no two K-points tie in the
+    refinement criterion (which of two tied points numpy.argsort prefers depends on the length of the list: not a
+    property of run())."""
+
+    def __init__(self, mode="table", table=None, salt=0):
+        self.mode, self.table, self.salt = mode, dict(table or {}), salt
+        self.cache = {}
+
+    def __call__(self, cell, lev):
+        k = (tuple(int(x) for x in cell), int(lev))
+        v = self.cache.get(k)
+        if v is None:
+            r = random.Random(hash((k[0], k[1], self.salt)))
+            if self.mode == "table":
+                base = float(self.table.get(k, 1.0))
+            elif self.mode == "random":
+                base = 10.0 ** r.uniform(0, 6)
+            elif self.mode == "deep":   # deep-first: children outrank everything older
+                base = float(r.choice([1, 2, 3, 5, 7])) * 1.0e3 ** k[1]
+            else:
+                raise ValueError(self.mode)
+            v = self.cache[k] = base * (1.0 + 1.0e-3 * r.random())
+        return v
+
+
 class OneHot:
     """calculator: EnergyResult whose data is `priority` at rows 2*slot, 2*slot+1 (x1, x2) of the K-point's cell"""
     comment = "one-hot synthetic calculator"
@@ -114,11 +163,8 @@ class OneHot:
 
     def __init__(self, geo, priority=None):
         self.geo = geo
-        self.priority = priority or {}
+        self.pri = priority if callable(priority) else Priority("table", priority)
         self.E = np.arange(2 * geo.nslots, dtype=float)
-
-    def pri(self, cell, lev):
-        return float(self.priority.get((cell, lev), 1.0))
 
     def __call__(self, data_K):
         Kp = data_K.Kpoint
@@ -137,96 +183,284 @@ class OneHot:
 # schedule-controlled ray double
 
 
+def _by_value(obj):
+    return _cp.loads(_cp.dumps(obj))
+
+
 class FakeRef:
-    def __init__(self, idx, thunk):
-        self.idx = idx
+    """stands for ray.ObjectRef of a task"""
+
+    def __init__(self, serial, thunk, by_value):
+        self.serial = serial
+        self.idx = None       # position in the batch (set by the first wait() that sees the ref)
         self.thunk = thunk
+        self.by_value = by_value
         self.value = None
         self.computed = False
 
     def compute(self):
         if not self.computed:
-            self.value = self.thunk()
+            v = self.thunk()
+            self.value = _by_value(v) if self.by_value else v
             self.computed = True
+            self.thunk = None
         return self.value
+
+
+class PutRef:
+    """stands for the ObjectRef returned by ray.put: the value is shipped (pickled) once; tasks see a copy"""
+
+    def __init__(self, v, by_value):
+        self.blob = _cp.dumps(v) if by_value else None
+        self.v = v
+        self.copy = None
+
+    def resolve(self):
+        if self.blob is None:
+            return self.v
+        if self.copy is None:
+            self.copy = _cp.loads(self.blob)
+        return self.copy
+
+    def compute(self):
+        return _by_value(self.v) if self.blob is not None else self.v
 
 
 class FakeRay(types.ModuleType):
     """Implements the subset of the ray API used by process()/run().  `schedule` decides, at each wait() call, which
     tasks have completed and which ready subset is returned (within the documented contract of ray.wait):
-    schedule(n_tasks, done_so_far(set of idx), num_returns, last_ready) -> (newly_completed list, ready list)"""
+    schedule(n_tasks, done_so_far(set of idx), num_returns, n_wait_calls, n_batch) -> (newly_completed list, ready list).
+    An answer that does not fit the actual call (other num_returns, other number of tasks: the collection loop of the
+    implementation need not be the one the schedule was written for) is replaced by FIFO completion (`fallbacks`).
 
-    def __init__(self, ncpu, schedule, emit):
+    Like ray, the double passes by value: arguments of a task and its result go through (cloud)pickle, top-level
+    arguments that are refs (ray.put / other tasks) are resolved, nested ones are not.
+
+    A batch is the list of refs handed to the first wait() after new .remote() calls; task numbers (events `Complete`)
+    are positions in that list."""
+
+    def __init__(self, ncpu, schedule, emit, by_value=True):
         super().__init__("ray")
         self.ncpu = ncpu
         self.schedule = schedule
         self.emit = emit
+        self.by_value = by_value
         self.done = set()
-        self.batch = []
         self.nwait = 0
         self.nbatch = -1
+        self.nserial = 0
+        self.fresh = []
+        self.fallbacks = 0
+        self.ObjectRef = FakeRef
 
-    def is_initialized(self):
+    # -- cluster
+    def is_initialized(self, *a, **kw):
         return True
 
-    def cluster_resources(self):
+    def init(self, *a, **kw):
+        return None
+
+    def shutdown(self, *a, **kw):
+        return None
+
+    def cluster_resources(self, *a, **kw):
         return {"CPU": float(self.ncpu)}
 
-    def put(self, v):
-        return v
+    def available_resources(self, *a, **kw):
+        return {"CPU": float(self.ncpu)}
 
-    def remote(self, f):
+    def put(self, v, *a, **kw):
+        return PutRef(v, self.by_value)
+
+    def cancel(self, *a, **kw):
+        return None
+
+    # -- tasks
+    def _resolve(self, x):
+        if isinstance(x, PutRef):
+            return x.resolve()
+        if isinstance(x, FakeRef):
+            return x.compute()
+        return _by_value(x) if self.by_value else x
+
+    def remote(self, *dargs, **dkw):
         fr = self
 
-        class Remote:
-            def remote(self_, *a, **kw):
-                ref = FakeRef(len(fr.batch), lambda: f(*a, **kw))
-                fr.batch.append(ref)
-                return ref
-        return Remote()
+        def wrap(f):
+            class Remote:
+                def remote(self_, *a, **kw):
+                    a2 = [fr._resolve(x) for x in a]
+                    kw2 = {k: fr._resolve(v) for k, v in kw.items()}
+                    ref = FakeRef(fr.nserial, lambda: f(*a2, **kw2), fr.by_value)
+                    fr.nserial += 1
+                    fr.fresh.append(ref)
+                    return ref
 
-    def new_batch(self):
-        self.batch = []
-        self.done = set()
+                def options(self_, *a, **kw):
+                    return self_
+            return Remote()
+        if len(dargs) == 1 and callable(dargs[0]) and not dkw:
+            return wrap(dargs[0])
+        return wrap           # decorator form  ray.remote(num_cpus=...)
+
+    def new_batch(self):      # kept for callers that know where a batch starts; wait() finds out by itself
+        pass
+
+    def _start_batch(self, refs):
+        self.fresh = []
         self.nwait = 0
         self.nbatch += 1
+        self.done = set()
+        for i, r in enumerate(refs):
+            r.idx = i
 
-    def wait(self, refs, num_returns=1, timeout=None):
+    def wait(self, refs, num_returns=1, timeout=None, **kw):
+        refs = list(refs)
+        if any(r.idx is None for r in refs):
+            self._start_batch(refs)
         n = len(refs)
-        newly, ready = self.schedule(n, set(self.done), num_returns, self.nwait, self.nbatch)
+        pos = {r.idx: r for r in refs}
+        done_here = {t for t in self.done if t in pos}
+        num_returns = max(0, min(int(num_returns), n))
+        try:
+            newly, ready = self.schedule(n, set(done_here), num_returns, self.nwait, self.nbatch)
+            newly, ready = [int(t) for t in newly], [int(t) for t in ready]
+            ok = (len(set(newly)) == len(newly) and all(t in pos and t not in done_here for t in newly)
+                  and set(ready) <= (done_here | set(newly)) and len(set(ready)) == len(ready) <= num_returns
+                  and (len(ready) == num_returns or set(ready) == (done_here | set(newly))))
+        except (IndexError, KeyError, ValueError):
+            ok = False
+        if not ok:
+            self.fallbacks += 1
+            newly, ready = fifo_schedule(sorted(pos), done_here, num_returns)
         self.nwait += 1
         for t in newly:
-            assert t not in self.done
             self.done.add(t)
             self.emit("Complete", dict(t=t))
-        assert set(ready) <= self.done and len(ready) <= num_returns
-        assert len(ready) == num_returns or set(ready) == self.done, "schedule violates the ray.wait contract"
-        ready_refs = [r for r in refs if r.idx in set(ready)]
-        rest = [r for r in refs if r.idx not in set(ready)]
-        return ready_refs, rest
+        rs = set(ready)
+        return [r for r in refs if r.idx in rs], [r for r in refs if r.idx not in rs]
 
-    def get(self, x):
-        if isinstance(x, list):
+    def get(self, x, *a, **kw):
+        if isinstance(x, (list, tuple)):
             return [r.compute() for r in x]
         return x.compute()
 
 
 # ---------------------------------------------------------------------------------------------------------
+# directory listing shims
+
+
+def factor_iters(files):
+    """iteration numbers of a list of factor files (None when some name is not a factor file)"""
+    out = []
+    for f in files:
+        m = FACTOR_FILE.search(os.path.basename(str(f)))
+        if not m:
+            return None
+        out.append(int(m.group(1)))
+    return out
+
+
+class ListingOrder:
+    """dictates the order of a directory listing: a permutation of the real (sorted) listing, the same permutation
+    every time the same listing is asked for"""
+
+    def __init__(self, order_fn=None):
+        self.order_fn = order_fn
+        self.memo = {}
+        self.consulted = 0          # listings with at least two entries that were dictated
+        self.last_factor_listing = None
+
+    def __call__(self, names):
+        names = sorted(names)
+        key = tuple(names)
+        if key not in self.memo:
+            out = list(names)
+            if self.order_fn is not None:
+                try:
+                    out = list(self.order_fn(list(names)))
+                except Exception:
+                    out = list(reversed(names))
+                if sorted(out) != names:
+                    out = list(reversed(names))
+            self.memo[key] = out
+        out = self.memo[key]
+        if len(names) > 1 and self.order_fn is not None:
+            self.consulted += 1
+        its = factor_iters(out)
+        if its:
+            self.last_factor_listing = its
+        return list(out)
 
 
 class GlobShim:
-    """replaces run_grid.glob: lists the factor files in a dictated order (a permutation of the real listing)"""
+    """replaces run_grid.glob (the module, or the function after `from glob import glob`)"""
 
-    def __init__(self, order_fn):
-        self.order_fn = order_fn
-        self.last = None
+    def __init__(self, order):
+        self.order = order
 
-    def glob(self, pattern):
-        files = sorted(_glob.glob(pattern))
-        out = self.order_fn(files)
-        assert sorted(out) == files
-        self.last = [int(f.split("-")[-1].split(".")[0]) for f in out]
-        return out
+    def glob(self, pattern, *a, **kw):
+        return self.order(_glob.glob(pattern, *a, **kw))
+
+    __call__ = glob
+
+    def iglob(self, pattern, *a, **kw):
+        return iter(self.glob(pattern, *a, **kw))
+
+    def __getattr__(self, name):
+        return getattr(_glob, name)
+
+
+class OsShim:
+    """replaces run_grid.os: listdir / scandir in the dictated order, everything else is the real os"""
+
+    def __init__(self, order):
+        self.order = order
+
+    def listdir(self, path="."):
+        return self.order(os.listdir(path))
+
+    def scandir(self, path="."):
+        ents = {e.name: e for e in os.scandir(path)}
+        return iter([ents[n] for n in self.order(list(ents))])
+
+    def __getattr__(self, name):
+        return getattr(os, name)
+
+
+def listing_fn(listing):
+    """order function for ListingOrder: the factor files in the order `listing` (iteration numbers), if that is a
+    permutation of the iterations on disk; other files reversed"""
+    def fn(files):
+        its = factor_iters(files)
+        if its is not None and sorted(its) == sorted(listing):
+            key = dict(zip(its, files))
+            return [key[i] for i in listing]
+        return list(reversed(files))
+    return fn
+
+
+def raised_by_package(ex):
+    """-> "module.function" if the innermost frame that is neither third-party nor harness is in wannierberri"""
+    from .main import raised_by_code_under_test
+    return raised_by_code_under_test(ex)
+
+
+# ---------------------------------------------------------------------------------------------------------
+
+
+def _attr(obj, name):
+    try:
+        return getattr(obj, name)
+    except AttributeError:
+        raise PrivateGone(f"{type(obj).__name__}.{name}")
+
+
+def _field(f, name):
+    try:
+        return f[name]
+    except KeyError:
+        raise PrivateGone(f"hook field {name}")
 
 
 class World:
@@ -241,43 +475,69 @@ class World:
         self.system = make_system(geo)
         self.calc = OneHot(geo, priority)
         self.events = []
-        self.cur_selK = None
         self.div_order = []
-        self.mode = None
-        self.last_listing = None
-        self.problems = []
+        self.problems = []        # NonIntegral projections: (event index, text)
+        self.errors = []          # exceptions raised by the package: dict(site, type, text)
+        self.private_gone = []    # names
+        self.soft_missing = set()  # optional private attributes that are gone (storage flags / paths)
+        self.paths = {}           # result_storage_path -> number (first seen = 1)
+        self.listing = None
+        self.restart_iteration = -1
+        self.listing_restarts = 0   # restarts with restart_iteration < 0 and more than one factor file
+        self.listing_consulted = 0  # ... in which the implementation asked a shimmed listing
+        self.ray_fallbacks = 0
+        self.last_klist = None
+        self._machinery = None
+        self._listing_before = []
 
-    # ---- projections
+    # ---- projections (one guarded adapter for the private attributes of KpointBZ)
+    def storage_state(self, K):
+        try:
+            if K.result is not None:
+                return "mem"
+            if K.res_dumped_flag:
+                return "disk"
+            if getattr(K, "res_cleared_flag", False):
+                return "cleared"
+            return "none"
+        except AttributeError as ex:
+            self.soft_missing.add(str(ex)[:80])
+            return "unknown"
+
+    def storage_path_no(self, K):
+        try:
+            p = K.result_storage_path
+        except AttributeError as ex:
+            self.soft_missing.add(str(ex)[:80])
+            return -1
+        if p is None:
+            return 0
+        return self.paths.setdefault(os.path.abspath(str(p)), len(self.paths) + 1)
+
     def proj_klist(self, K_list):
         out = []
         for K in K_list:
-            cell = self.geo.cell_of(K.K)
-            if K.result is not None:
-                st = "mem"
-            elif K.res_dumped_flag:
-                st = "disk"
-            elif getattr(K, "res_cleared_flag", False):
-                st = "cleared"
-            else:
-                st = "none"
-            sp = 0
-            if K.result_storage_path is not None:
-                sp = int(os.path.basename(K.result_storage_path).split("-")[-1].split(".")[0]) + 1
-            out.append([cell[0], cell[1], int(K.refinement_level), self.geo.weight(K.factor), bool(K.was_evaluated_flag), st, sp])
+            cell = self.geo.cell_of(_attr(K, "K"))
+            out.append([cell[0], cell[1], int(_attr(K, "refinement_level")), self.geo.weight(_attr(K, "factor")),
+                        bool(_attr(K, "was_evaluated_flag")), self.storage_state(K), self.storage_path_no(K)])
         return out
 
     def proj_result(self, res, K_list):
         """coefficient of each K-point of K_list in the result + total coefficient over all slots"""
         if res is None:
             return None
-        d = res.results["oh"].data
+        try:
+            d = res.results["oh"].data
+        except (AttributeError, KeyError, TypeError) as ex:
+            raise PrivateGone(f"ResultDict.results['oh'].data ({ex})")
         g = self.geo
         coef = []
         used = set()
         for K in K_list:
-            cell = g.cell_of(K.K)
-            s = g.slot(cell, K.refinement_level)
-            p = self.calc.pri(cell, K.refinement_level)
+            cell = g.cell_of(_attr(K, "K"))
+            lev = int(_attr(K, "refinement_level"))
+            s = g.slot(cell, lev)
+            p = self.calc.pri(cell, lev)
             a, b = d[2 * s] / p, d[2 * s + 1] / (2 * p)
             if abs(a - b) > 1e-9:
                 raise NonIntegral(f"one-hot rows disagree at slot {s}: {a} {b}")
@@ -293,8 +553,10 @@ class World:
     def disk_state(self):
         ff = []
         for f in sorted(_glob.glob(os.path.join(self.kdir, "factors_iter-*.npy"))):
-            i = int(f.split("-")[-1].split(".")[0])
-            ff.append([i, [self.geo.weight(x) for x in np.load(f)]])
+            i = factor_iters([f])
+            if i is None:
+                continue
+            ff.append([i[0], [self.geo.weight(x) for x in np.load(f)]])
         pk = []
         fn = os.path.join(self.kdir, "K_list.pickle")
         if os.path.exists(fn):
@@ -306,84 +568,117 @@ class World:
                         break
         return dict(ffiles=ff, pick=self.proj_klist(pk))
 
+    def disk_state_opt(self):
+        """the restart files are a detail of the implementation (strict level only): unreadable -> not reported"""
+        if not os.path.isdir(self.kdir):
+            return None
+        try:
+            return self.disk_state()
+        except (NonIntegral, PrivateGone):
+            raise
+        except Exception as ex:
+            self.soft_missing.add(f"restart files: {type(ex).__name__}")
+            return None
+
     def saved_file(self, i_iter):
         fn = f"{self.fout}-oh_iter-{i_iter:04d}.npz"
         if not os.path.exists(fn):
             return None
-        return EnergyResult.from_npz(fn, void_if_missing=False)
+        return EnergyResult.from_npz(fn)
 
-    # ---- summary sink for big worlds: one compact record per UpdateIntegral / Return / SaveData
+    # ---- summary sink for big worlds: one record with the projected vectors per UpdateIntegral / Return / Returned
     def summary_sink(self, event, f):
-        if event not in ("UpdateIntegral", "Return", "StartRestart"):
+        if event == "Return":
+            self.last_klist = f.get("K_list")
+        if event not in ("UpdateIntegral", "Return", "StartRestart", "Returned"):
             return
         g = self.geo
         try:
-            K_list = f["K_list"]
-            pr = self.proj_result(f["result_all"], K_list)
-            facs = [g.weight(K.factor) for K in K_list]
-            mism = [[i + 1, c, w] for i, (c, w) in enumerate(zip(pr["coef"], facs)) if c != w]
-            self.events.append(dict(e=event, nk=len(K_list), wtot=g.WTOT, sumfac=sum(facs), sumcoef=sum(pr["coef"]),
-                                    mismatches=mism[:20], nmismatch=len(mism), stray=pr["stray"],
-                                    notevaluated=sum(1 for K in K_list if not K.was_evaluated_flag),
-                                    minpos=min([w for w in facs if w > 0] or [0])))
+            K_list = _field(f, "K_list")
+            pr = self.proj_result(_field(f, "result_all"), K_list)
+            facs = [g.weight(_attr(K, "factor")) for K in K_list]
+            self.events.append(dict(e=event, wtot=g.WTOT, facs=facs, coef=pr["coef"], stray=pr["stray"],
+                                    ev=[bool(_attr(K, "was_evaluated_flag")) for K in K_list]))
         except NonIntegral as ex:
             self.events.append(dict(e=event, nonintegral=str(ex)))
-            self.problems.append(str(ex))
+            self.problems.append((len(self.events) - 1, str(ex)))
+        except PrivateGone as ex:
+            self.private_gone.append(str(ex))
 
     # ---- hook sink
     def sink(self, event, f):
+        """never raises into run(): see the failure classes in the module docstring"""
+        if self.private_gone or self._machinery is not None:
+            return
+        try:
+            self._sink(event, f)
+        except PrivateGone as ex:
+            self.private_gone.append(str(ex))
+        except Exception as ex:   # a defect of the harness, not of run()
+            self._machinery = (ex, traceback.format_exc())
+
+    def _sink(self, event, f):
         g = self.geo
         ev = dict(e=event)
         try:
             if event in ("StartFresh", "StartRestart"):
-                ev.update(par=bool(f["parallel"]), dump=bool(f["dump_results"]), allow=bool(f["allow_restart"]),
-                          sym=bool(f["use_irred_kpt"]), restart=(event == "StartRestart"), nit=int(f["adpt_num_iter"]),
-                          start=int(f["start_iter"]), kl=self.proj_klist(f["K_list"]),
-                          facs=[g.weight(x) for x in f["factors"]])
+                ev.update(par=bool(_field(f, "parallel")), dump=bool(_field(f, "dump_results")), allow=bool(_field(f, "allow_restart")),
+                          sym=bool(_field(f, "use_irred_kpt")), restart=(event == "StartRestart"), nit=int(_field(f, "adpt_num_iter")),
+                          start=int(_field(f, "start_iter")), kl=self.proj_klist(_field(f, "K_list")))
+                if "factors" in f:
+                    ev["facs"] = [g.weight(x) for x in f["factors"]]
                 if event == "StartRestart":
-                    ev["coef"] = self.proj_result(f["result_all"], f["K_list"])
-                    ev["listing"] = list(self.last_listing) if self.last_listing is not None else None
+                    ev["coef"] = self.proj_result(_field(f, "result_all"), f["K_list"])
+                    lst = self.listing.last_factor_listing if self.listing is not None else None
+                    ev["listing"] = list(lst if lst is not None else self._listing_before)
                     ev["ri"] = int(self.restart_iteration)
                 if ev["allow"]:
-                    ev["disk"] = self.disk_state()
+                    ev["disk"] = self.disk_state_opt()
             elif event == "BeginProcess":
-                self.cur_selK = list(f["selK"])
-                ev.update(sel=[int(i) + 1 for i in f["selK"]], par=bool(f["parallel"]), kl=self.proj_klist(f["K_list"]))
+                ev.update(kl=self.proj_klist(_field(f, "K_list")))
+                if "selK" in f:
+                    ev["sel"] = [int(i) + 1 for i in f["selK"]]
+                if "parallel" in f:
+                    ev["par"] = bool(f["parallel"])
             elif event in ("Eval", "Collect"):
-                ev.update(k=int(f["ik"]) + 1, kl=self.proj_klist(f["K_list"]),
-                          rsum=self.proj_result(f["result_sum"], f["K_list"]))
+                ev.update(k=int(_field(f, "ik")) + 1, kl=self.proj_klist(_field(f, "K_list")),
+                          rsum=self.proj_result(_field(f, "result_sum"), f["K_list"]))
             elif event == "Wait":
-                ev.update(ready=[int(i) + 1 for i in np.where(f["ready"])[0]], old=[int(i) + 1 for i in np.where(f["old"])[0]])
+                ev.update(ready=[int(i) + 1 for i in np.where(_field(f, "ready"))[0]], old=[int(i) + 1 for i in np.where(_field(f, "old"))[0]])
             elif event == "EndCollect":
-                ev.update(old=[int(i) + 1 for i in np.where(f["old"])[0]])
+                ev.update(old=[int(i) + 1 for i in np.where(_field(f, "old"))[0]])
             elif event == "EndProcess":
-                ev.update(kl=self.proj_klist(f["K_list"]), rsum=self.proj_result(f["result_sum"], f["K_list"]))
+                ev.update(kl=self.proj_klist(_field(f, "K_list")), rsum=self.proj_result(_field(f, "result_sum"), f["K_list"]))
             elif event == "AppendPickle":
-                ev.update(disk=self.disk_state() if os.path.isdir(self.kdir) else None)
+                ev.update(disk=self.disk_state_opt())
             elif event == "UpdateIntegral":
-                ev.update(kl=self.proj_klist(f["K_list"]), coef=self.proj_result(f["result_all"], f["K_list"]),
-                          facs=[g.weight(x) for x in f["factors"]],
-                          disk=self.disk_state() if os.path.isdir(self.kdir) else None)
+                ev.update(kl=self.proj_klist(_field(f, "K_list")), coef=self.proj_result(_field(f, "result_all"), f["K_list"]),
+                          disk=self.disk_state_opt())
+                if "factors" in f:
+                    ev["facs"] = [g.weight(x) for x in f["factors"]]
             elif event == "SaveData":
-                ev.update(saved=bool(f["saved"]), iter=int(f["i_iter"]))
-                if f["saved"]:
-                    r = self.saved_file(int(f["i_iter"]))
+                ev.update(saved=bool(_field(f, "saved")), iter=int(_field(f, "i_iter")))
+                if ev["saved"]:
+                    r = self.saved_file(ev["iter"])
                     if r is None:
                         ev["file"] = None
                     else:
                         from wannierberri.result import ResultDict
-                        ev["file"] = self.proj_result(ResultDict({"oh": r}), f["K_list"])
+                        ev["file"] = self.proj_result(ResultDict({"oh": r}), _field(f, "K_list"))
             elif event == "Divide":
-                self.div_order.append(int(f["iK"]) + 1)
+                self.div_order.append(int(_field(f, "iK")) + 1)
                 return
             elif event == "Refine":
-                ev.update(ord=list(self.div_order), kl=self.proj_klist(f["K_list"]), nkprev=int(f["nk_prev"]))
+                ev.update(ord=list(self.div_order), kl=self.proj_klist(_field(f, "K_list")))
+                if "nk_prev" in f:
+                    ev["nkprev"] = int(f["nk_prev"])
                 self.div_order = []
             elif event == "Return":
-                ev.update(coef=self.proj_result(f["result_all"], f["K_list"]))
+                self.last_klist = list(_field(f, "K_list"))
+                ev.update(coef=self.proj_result(_field(f, "result_all"), f["K_list"]))
         except NonIntegral as ex:
             ev["nonintegral"] = str(ex)
-            self.problems.append(str(ex))
+            self.problems.append((len(self.events), f"{event}: {ex}"))
         self.events.append(ev)
 
     def emit_env(self, event, fields):
@@ -393,31 +688,42 @@ class World:
 
     # ---- running
     def run(self, nit, parallel=False, dump=False, allow=False, sym=True, restart=False, adpt_fac=1,
-            schedule=None, ncpu=2, listing_fn=None, klist_part=10, restart_iteration=-1, real_ray=False, summary=False):
+            schedule=None, ncpu=2, listing_fn=None, klist_part=10, restart_iteration=-1, summary=False):
+        """-> (result or None, error text or None).  error text: the package raised (recorded in self.errors).
+        Problems of the harness itself raise MachineryError; vanished private names are recorded in self.private_gone
+        (the caller skips what depends on them)."""
         with quiet():
             grid = wb.Grid(system=self.system, NKdiv=[self.geo.N, self.geo.N if self.geo.D == 2 else 1, 1], NKFFT=1)
-        RG._verif_sink = self.summary_sink if summary else self.sink
-        RG._VERIF_ON = True
-        old_glob = RG.glob
-        shim = GlobShim(listing_fn or (lambda files: files))
-        RG.glob = shim
-        self.last_listing = None
+        self._machinery = None
+        self.last_klist = None
+        sink = self.summary_sink if summary else self.sink
+        self.listing = ListingOrder(listing_fn)
         self.restart_iteration = restart_iteration
+        self._listing_before = []
         if restart:
-            # the listing is consulted inside read_factors before the StartRestart event is emitted
             files = sorted(_glob.glob(os.path.join(self.kdir, "factors_iter-*.npy")))
-            self.last_listing = [int(f.split("-")[-1].split(".")[0]) for f in shim.order_fn(files)]
+            self._listing_before = factor_iters(self.listing(files)) or []
+            self.listing.consulted = 0
+            self.listing.last_factor_listing = None
+            if restart_iteration < 0 and len(files) > 1 and listing_fn is not None:
+                self.listing_restarts += 1
+        patched = []
+
+        def patch(obj, name, value):
+            if hasattr(obj, name):
+                patched.append((obj, name, getattr(obj, name)))
+                setattr(obj, name, value)
+        patch(RG, "_verif_sink", sink)
+        patch(RG, "_VERIF_ON", True)
+        if not hasattr(RG, "_verif_sink"):
+            self.private_gone.append("run_grid._verif_sink (hook)")
+        patch(RG, "glob", GlobShim(self.listing))
+        patch(RG, "os", OsShim(self.listing))
         fake = None
         saved_ray = sys.modules.get("ray")
-        if parallel and not real_ray:
-            fake = FakeRay(ncpu, schedule or fifo_schedule, self.emit_env)
+        if parallel:
+            fake = FakeRay(ncpu, schedule or fifo_answer, self.emit_env)
             sys.modules["ray"] = fake
-            orig_process = RG.process
-
-            def process_wrapper(*a, **kw):
-                fake.new_batch()
-                return orig_process(*a, **kw)
-            RG.process = process_wrapper
         err = None
         res = None
         try:
@@ -427,19 +733,51 @@ class World:
                              dump_results=dump, parallel=parallel, adpt_mesh=self.geo.NDIV, adpt_fac=adpt_fac,
                              data_k_class=FakeDataK, Klist_part=klist_part, restart_iteration=restart_iteration,
                              print_progress_step_time=1e9)
-        except Exception as ex:  # the trace records it; validation decides
-            import traceback
-            err = "".join(traceback.format_exception_only(type(ex), ex)).strip()
-            self.events.append(dict(e="Exception", what=err[:300]))
+        except NonIntegral as ex:     # raised by the one-hot calculator: the K-point is off the lattice
+            err = f"NonIntegral: {ex}"
+            self.problems.append((len(self.events), f"calculator: {ex}"))
+        except Exception as ex:
+            site = raised_by_package(ex)
+            text = "".join(traceback.format_exception_only(type(ex), ex)).strip()
+            if site is not None:
+                err = text
+                self.errors.append(dict(site=site, type=type(ex).__name__, text=text[:400], at_event=len(self.events),
+                                        traceback=traceback.format_exception(type(ex), ex, ex.__traceback__)[-8:]))
+            elif isinstance(ex, (TypeError, AttributeError)):
+                # keyword of run() renamed, attribute the double lacks, ...: what the harness relies on is gone
+                err = text
+                self.private_gone.append("run(): " + text[:200])
+            else:
+                raise MachineryError(f"harness failure while driving run(): {text}\n{traceback.format_exc()[-1500:]}") from ex
         finally:
-            RG.glob = old_glob
-            RG._verif_sink = None
+            for obj, name, old in reversed(patched):
+                setattr(obj, name, old)
             if fake is not None:
-                RG.process = orig_process
+                self.ray_fallbacks += fake.fallbacks
                 if saved_ray is not None:
                     sys.modules["ray"] = saved_ray
                 else:
                     sys.modules.pop("ray", None)
+        if self._machinery is not None:
+            ex, tb = self._machinery
+            raise MachineryError(f"harness failure in the hook sink: {type(ex).__name__}: {ex}\n{tb[-1500:]}")
+        if restart and restart_iteration < 0 and self.listing.consulted > 0 and len(self._listing_before) > 1 and listing_fn is not None:
+            self.listing_consulted += 1
+        if err is None and res is not None and not self.private_gone:
+            kl = self.last_klist
+            if kl is not None:
+                if summary:
+                    self.summary_sink("Returned", dict(K_list=kl, result_all=res))
+                else:
+                    ev = dict(e="Returned")
+                    try:
+                        ev["coef"] = self.proj_result(res, kl)
+                    except NonIntegral as ex:
+                        ev["nonintegral"] = str(ex)
+                        self.problems.append((len(self.events), f"Returned: {ex}"))
+                    except PrivateGone as ex:
+                        self.private_gone.append(str(ex))
+                    self.events.append(ev)
         return res, err
 
     def mark(self, name, **kw):
@@ -450,21 +788,26 @@ class World:
             os.remove(f)
 
 
-def fifo_schedule(n, done, num_returns, nwait, nbatch=0):
-    """everything needed completes in input order"""
-    newly = [t for t in range(n) if t not in done][:max(0, num_returns - len(done))]
-    d = sorted(done | set(newly))
+def fifo_schedule(idxs, done, num_returns):
+    """everything needed completes in input order (idxs: task numbers of the refs at hand)"""
+    newly = [t for t in idxs if t not in done][:max(0, num_returns - len(done))]
+    d = sorted(set(done) | set(newly))
     return newly, d[:num_returns]
 
 
+def fifo_answer(n, done, num_returns, nwait, nbatch=0):
+    return fifo_schedule(list(range(n)), done, num_returns)
+
+
 def scripted_schedule(steps):
-    """steps: {batch: list of (newly_completed, ready) per wait call}; falls back to FIFO completion afterwards"""
+    """steps: {batch: list of (newly_completed, ready) per wait call}; FIFO completion afterwards (and whenever the
+    scripted answer does not fit the call, see FakeRay.wait)"""
     def sch(n, done, num_returns, nwait, nbatch=0):
         st = steps.get(nbatch, [])
         if nwait < len(st):
             newly, ready = st[nwait]
             return list(newly), list(ready)
-        return fifo_schedule(n, done, num_returns, nwait)
+        return fifo_answer(n, done, num_returns, nwait)
     return sch
 
 
